@@ -168,6 +168,9 @@ DoFetch(st, r) ==
        ELSE IF Expired(tok, r.life) THEN Out("error", st)
        ELSE LET st1 == [st EXCEPT !.tokens[r.n] = [st |-> "gone", state |-> NONE]] IN
             IF st.nodes[r.k].present THEN Out("error", st1)     \* token consumed, existing node refused
+            \* skipst: the caller asked that nothing be stored on its behalf: the token is used up all the same, credentials
+            \* are handed out, no record is written
+            ELSE IF "skipst" \in DOMAIN r /\ r.skipst THEN Out("issued", st1)
             ELSE Out("issued", AuthorizeCommon(st1, r.k, r.e, r.n, tok.state))
 
 (***************************************************************************)
@@ -303,7 +306,8 @@ NoRewrap == [rby |-> NONE, rwith |-> NONE, rk |-> NONE, rn |-> NONE]
 \* selfinfo: the signed bundle itself carries a pre-populated (self-asserted) registration-flow info naming the
 \* request's own key and nonce - a field the server is meant to fill in only after unsealing; it must not matter
 FetchCore == [op : {"Fetch"}, k : CertKeys, e : EncKeys, n : AllNonces, life : Lives, selfinfo : BOOLEAN]
-Wraps == {NoWrap} \cup [ww : {"W1", "W2"}, wk : CertKeys, wn : AllNonces \ {"tf", "tg"}]
+\* "SW": the info is sealed with the server's STORAGE wrapper (which is not a registration wrapper, whatever else is configured)
+Wraps == {NoWrap} \cup [ww : {"W1", "W2", "SW"}, wk : CertKeys, wn : AllNonces \ {"tf", "tg"}]
 Rewraps == {NoRewrap} \cup [rby : CertKeys, rwith : CertKeys \cup {"rand"}, rk : CertKeys, rn : AllNonces \ {"tf", "tg"}]
 
 Merge(a, b) == [x \in (DOMAIN a) \cup (DOMAIN b) |-> IF x \in DOMAIN a THEN a[x] ELSE b[x]]
